@@ -671,7 +671,7 @@ Proof.
   pose proof (g_stat _ G) as Hst. pose proof (index_present _ _ _ G Hold) as Hi.
   pose proof (goodV_nonneg_rest _ a G) as Hnn. pose proof (g_sorted _ G) as Hs.
   unfold c_vundo1, c_update_validator, c_set_validator, c_stat, c_index, c_xs.
-  destruct c as [m idx st ac]; cbn in *.
+  destruct c as [m idx st ac]; cbn in *. rewrite aget_sset_same. destruct nw as [nv nl]; cbn [fst].
   f_equal.
   - apply sset_sset_back; assumption.
   - rewrite Hi, Hi. reflexivity.
